@@ -1132,12 +1132,10 @@ func (c *ControlPlane) InheritDialerHealthFrom(previous *ControlPlane) bool {
 	}
 	var floors []pendingFloor
 
+	// A group that is new (or renamed) in this generation needs its floor too: its
+	// dialers may be shared with an inherited group and be restored to not alive.
 	for _, group := range c.outbounds {
 		if group == nil {
-			continue
-		}
-		oldGroup := previousGroups[group.Name]
-		if oldGroup == nil {
 			continue
 		}
 		floors = append(floors, pendingFloor{group: group, fallback: group.CaptureReloadSelectionFallback()})
